@@ -92,7 +92,10 @@ OUTER:
 		m.invalidateLatestSnapshotLOCKED()
 
 		stackCleanPrev = m.stackClean
-		if m.options.CachePersisted {
+		if m.options.CachePersisted && !m.stackDirtyBase.hasMergeOps() {
+			// Cached segments are read on top of the lower level that
+			// already contains them, which is harmless for sets and
+			// deletions but would apply merge operands a second time.
 			m.stackClean = m.stackDirtyBase
 		} else {
 			m.stackClean = nil
